@@ -185,7 +185,7 @@ def correspondence(ctx):
     res.evaluations += n_exh
 
     # random sentences, corruptions, corpus
-    stream = [(c["kind"], c["case"]) for c in load_corpus()] + gen_stream(rng, ctx.n(1500, 40000))
+    stream = [(c["kind"], c["case"]) for c in load_corpus() if isinstance(c["case"], str)] + gen_stream(rng, ctx.n(1500, 40000))
     seen, cases = set(), []
     vp = _valid_pattern()
     for kind, s in stream:
@@ -274,25 +274,85 @@ def shrink_string(s, fails):
     return cur
 
 
+def judge_case(case):
+    """one string, or a session {"session": [s1, ..., sn]}: the strings are offered to the parser one after the other in
+    ONE fresh library state and the last one is judged (state the library keeps between calls thereby becomes part of
+    the input: a string must be judged the same however often and after whatever it is offered)"""
+    core.fresh_impl()
+    U.clear_global_state()
+    if isinstance(case, dict):
+        sess = case["session"]
+        for s in sess[:-1]:
+            U.impl_parse(s)
+        why = U.judge(sess[-1])
+        return "after {} earlier parse(s) in the same interpreter ({}): {}".format(
+            len(sess) - 1, ", ".join(repr(x) for x in sess[:-1][:4]), why) if why else None
+    return U.judge(case)
+
+
 def search(ctx, suspects, budget):
     t0 = time.time()
+    core.fresh_impl()
     U.clear_global_state()
     out, seen_what = [], set()
+    journal = []          # the strings offered to the library so far in this process (most recent last)
 
-    def report(s):
-        small = shrink_string(s, lambda x: U.judge(x) is not None)
-        why = U.judge(small)
-        cls = re.sub(r"'[^']*'|\{[^}]*\}", "_", why)
+    def add(case, why):
+        cls = re.sub(r"'[^']*'|\{[^}]*\}|\([^)]*\)", "_", why)
         if cls in seen_what and len(out) >= 2:
             return
         seen_what.add(cls)
-        out.append(Violation(ID, "string", small, why))
+        out.append(Violation(ID, "string" if isinstance(case, str) else "session", case, why))
 
-    todo = [d["case"] for d in suspects if d.get("kind") == "string" and isinstance(d.get("case"), str)]
-    todo += [c["case"] for c in load_corpus()]
-    for s in todo:
+    def report(s):
+        """a failure seen in the running process is re-established from a fresh library state: the shrunk string alone,
+        else the string offered twice, else after the shortest run of the strings offered before it"""
+        nonlocal journal
+        small = shrink_string(s, lambda x: U.judge(x) is not None)
+        for cand in (small, s):
+            why = judge_case(cand)
+            if why:
+                add(cand, why)
+                break
+            sess = {"session": [cand, cand]}
+            why = judge_case(sess)
+            if why:
+                add(sess, why)
+                break
+        else:
+            recent = journal[-400:]
+            if judge_case({"session": recent + [s]}):
+                prefix = core.minimize_session(recent, lambda p: judge_case({"session": p + [s]}) is not None)
+                sess = {"session": prefix + [s]}
+                add(sess, judge_case(sess) or U.judge(s) or "")
+            else:
+                add(s, (U.judge(s) or "violation seen only in the running process") +
+                    " (only after the cases of this run, not reproduced from a fresh library state)")
+        core.fresh_impl()
+        U.clear_global_state()
+        journal = []
+
+    def examine(s):
         if U.judge(s):
             report(s)
+        else:
+            journal.append(s)
+            if len(journal) > 5000:
+                del journal[:2500]
+
+    todo = [d["case"] for d in suspects if d.get("kind") == "string" and isinstance(d.get("case"), str)]
+    for c in load_corpus():
+        if isinstance(c["case"], dict):
+            why = judge_case(c["case"])
+            if why:
+                add(c["case"], why)
+        else:
+            todo.append(c["case"])
+    for s in todo:
+        examine(s)
+    # every string must be judged the same when it is offered again (a retry after the error message)
+    for s in todo[:60]:
+        examine(s)
     # exhaustive small scope: the oracle is total (sentence <-> must be accepted with the conventional meaning)
     max_len = 5 if (budget >= 20 or not ctx.quick) else 4
     done_len = -1
@@ -302,12 +362,10 @@ def search(ctx, suspects, budget):
             if i % 4096 == 0 and time.time() - t0 > budget * 0.5:
                 stop = True
                 break
-            s = "".join(w)
-            if U.judge(s):
-                report(s)
-                if len(out) >= 4:
-                    stop = True
-                    break
+            examine("".join(w))
+            if len(out) >= 4:
+                stop = True
+                break
         if stop:
             break
         done_len = L
@@ -316,16 +374,16 @@ def search(ctx, suspects, budget):
     while len(out) < 5 and time.time() - t0 < budget and n < ctx.n(4000, 200000):
         s = U.gen_sentence(rng)
         n += 1
-        for cand in (s, U.corrupt(rng, s), U.corrupt(rng, s), "1/" + s):
-            if U.judge(cand):
-                report(cand)
-    ctx.notes.append("oracle: all strings of length <= {} over the 11-character alphabet, {} random sentences with corruptions".format(
-        done_len, n))
+        cands = [s, U.corrupt(rng, s), U.corrupt(rng, s), "1/" + s]
+        for cand in cands + cands[1:3]:          # the corruptions are offered a second time
+            examine(cand)
+    ctx.notes.append("oracle: all strings of length <= {} over the 11-character alphabet, {} random sentences with corruptions "
+                     "(corruptions and corpus strings offered twice)".format(done_len, n))
     U.clear_global_state()
     return out[:5]
 
 
 def replay(ctx, v):
+    why = judge_case(v["case"])
     U.clear_global_state()
-    why = U.judge(v["case"])
     return Violation(ID, v["kind"], v["case"], why) if why else None
